@@ -5,6 +5,9 @@
 
    case     = (ops observed),  words and texts are lists of runes
    op       = (0 w) AddWord | (1 w) Remove | (2) Reset | (3 text) query | (4 w) probe
+              (5 #bytes) (6 #bytes) (8 #bytes) (9 #bytes) = ops 0 1 3 4 on a raw byte string
+              (possibly invalid UTF-8), decoded by Model.runes_of_bytes as Go decodes it;
+              (7 #bytes) = decode only: observed ((runes of []rune(s)))
    observed = one entry per op:
               (0 w) -> (count)            WordsCount() after the call
               (1 w) -> (ret count)        return value of Remove, WordsCount() after
@@ -19,7 +22,8 @@ Open Scope Z_scope.
 (* ---------- decoding ---------- *)
 
 Inductive hop :=
-| HAdd (w : list Z) | HRemove (w : list Z) | HReset | HQuery (t : list Z) | HProbe (w : list Z).
+| HAdd (w : list Z) | HRemove (w : list Z) | HReset | HQuery (t : list Z) | HProbe (w : list Z)
+| HDecode (r : list Z).
 
 Definition hop_of (s : sx) : option hop :=
   match s with
@@ -28,6 +32,11 @@ Definition hop_of (s : sx) : option hop :=
   | SList [SInt 2] => Some HReset
   | SList [SInt 3; w] => option_map HQuery (sx_ints w)
   | SList [SInt 4; w] => option_map HProbe (sx_ints w)
+  | SList [SInt 5; SBytes b] => Some (HAdd (runes_of_bytes (map Z.of_N b)))
+  | SList [SInt 6; SBytes b] => Some (HRemove (runes_of_bytes (map Z.of_N b)))
+  | SList [SInt 8; SBytes b] => Some (HQuery (runes_of_bytes (map Z.of_N b)))
+  | SList [SInt 9; SBytes b] => Some (HProbe (runes_of_bytes (map Z.of_N b)))
+  | SList [SInt 7; SBytes b] => Some (HDecode (runes_of_bytes (map Z.of_N b)))
   | _ => None
   end.
 
@@ -60,6 +69,11 @@ Fixpoint corr (t : hashtrie) (ops : list hop) (obs : list sx) : verdict :=
           vjoin (check_that (Bool.eqb (match w with [] => false | _ => terminal (root t) w end) (h =? 1))
                             (VMismatch 6))
                 (corr t ops' obs')
+      | HDecode r, SList [g] =>
+          match sx_ints g with
+          | Some g => vjoin (check_that (zl_eqb r g) (VMismatch 8)) (corr t ops' obs')
+          | None => VBad
+          end
       | _, _ => VBad
       end
   | _, _ => VBad
@@ -82,6 +96,7 @@ Fixpoint prop (d : list (list Z)) (lastrm : option (list Z)) (ops : list hop) (o
          (vjoin (check_that (cnt =? Z.of_nat (length d')) (VPropFail 3)) (prop d' (Some w) ops' obs'))
       | HReset, SList [SInt cnt] =>
           vjoin (check_that (cnt =? 0) (VPropFail 3)) (prop [] None ops' obs')
+      | HDecode _, _ => prop d lastrm ops' obs'
       | HProbe w, SList [SInt h] =>
           let ok := Bool.eqb (h =? 1) (wmem w d) in
           let code := match lastrm with
@@ -101,7 +116,11 @@ Fixpoint prop (d : list (list Z)) (lastrm : option (list Z)) (ops : list hop) (o
                         (check_that (negb (existsb (fun w => occurs_b false w f) d)) (VPropFail 8))))
                 else if noncompeting d then
                   check_that (Bool.eqb (c =? 1) (existsb (fun w => occurs_b true w s) d)) (VPropFail 9)
-                else VOk in
+                else
+                  (* competing wildcard dictionary: outside the property's premise; compared
+                     with the word-list matcher of c14_match_semantics (exact continuation
+                     first, then '*', first word reached, leftmost start) *)
+                  check_that (Bool.eqb (c =? 1) (ref_contains d s)) (VMismatch 7) in
               vjoin v (prop d lastrm ops' obs')
           | None => VBad
           end
